@@ -46,6 +46,20 @@ type c11Case struct {
 	Remaining  string      `json:"remaining"` // none | plain | nested-selector | call-selector | index-selector | in-func-lit
 	Sites      int         `json:"sites"`
 	SecondUsed bool        `json:"second_used"` // the second deleted import is still used
+	PathStyle  string      `json:"path_style,omitempty"` // "" plain | gopkg (gopkg.in/yaml.v2 -> v3) | slashv (example.com/codec/v2 -> v3)
+}
+
+// c11Paths returns the subject path, the path that replaces it, and the
+// names by which Go code refers to those packages when they are imported
+// without a name (a major-version element is not the package name).
+func c11Paths(style string) (oldPath, newPath, oldName, newName string) {
+	switch style {
+	case "gopkg":
+		return "gopkg.in/yaml.v2", "gopkg.in/yaml.v3", "yaml", "yaml"
+	case "slashv":
+		return "example.com/codec/v2", "example.com/codec/v3", "codec", "codec"
+	}
+	return c11Old, c11New, "oldp", "newp"
 }
 
 const (
@@ -75,6 +89,7 @@ func c11PkgName(name, path string, metaName string) string {
 }
 
 func c11Build(cs *c11Case) (patch, file string, ex c11Expect) {
+	c11Old, c11New, oldName, newName := c11Paths(cs.PathStyle)
 	// --- patch ---
 	var p strings.Builder
 	p.WriteString("@@\n")
@@ -96,11 +111,14 @@ func c11Build(cs *c11Case) (patch, file string, ex c11Expect) {
 		patchName = "oldp"
 	}
 	// name by which the file's code refers to the subject package
-	pkg := c11PkgName(cs.FileName, c11Old, "")
+	pkg := oldName
+	if cs.FileName != "" {
+		pkg = cs.FileName
+	}
 	if cs.NameForm == "meta" && cs.FileName == "" {
 		pkg = "oldp"
 	}
-	newPkg := "newp"
+	newPkg := newName
 	switch cs.Kind {
 	case "replace":
 		p.WriteString("-" + imp(patchName, c11Old) + "\n")
@@ -131,7 +149,12 @@ func c11Build(cs *c11Case) (patch, file string, ex c11Expect) {
 	}
 	switch cs.Kind {
 	case "replace", "rename-path-keep-name":
-		p.WriteString(fmt.Sprintf("-%s.Do(x)\n+%s.Do(x)\n", patPkg, map[bool]string{true: patPkg, false: newPkg}[cs.Kind == "rename-path-keep-name"]))
+		to := map[bool]string{true: patPkg, false: newPkg}[cs.Kind == "rename-path-keep-name"]
+		method := "Do"
+		if to == patPkg {
+			method = "DoNew" // the package name stays: the rewritten call must still differ
+		}
+		p.WriteString(fmt.Sprintf("-%s.Do(x)\n+%s.%s(x)\n", patPkg, to, method))
 	case "delete":
 		p.WriteString(fmt.Sprintf("-%s.Do(x)\n+localDo(x)\n", patPkg))
 	case "add":
@@ -231,6 +254,13 @@ func c11Build(cs *c11Case) (patch, file string, ex c11Expect) {
 		f.WriteString(fmt.Sprintf("var rest = func() any {\n\treturn func() any { return %s.Deep }\n}\n", pkg))
 	case "type-position":
 		f.WriteString(fmt.Sprintf("func rest(c *%s.Client, m map[string]%s.Opt) {}\n", pkg, pkg))
+	case "shadowed-param":
+		// a parameter named like the package: its selectors do not refer to the package
+		f.WriteString(fmt.Sprintf("type localT struct{ N int }\n\nfunc (localT) Flush() {}\n\nfunc rest(%s *localT) int {\n\t%s.Flush()\n\treturn %s.N\n}\n", pkg, pkg, pkg))
+	case "shadowed-var":
+		f.WriteString(fmt.Sprintf("type localT struct{ N int }\n\nfunc rest() int {\n\t%s := localT{}\n\tfor i := 0; i < 2; i++ {\n\t\t%s.N++\n\t}\n\treturn %s.N\n}\n", pkg, pkg, pkg))
+	case "shadowed-receiver":
+		f.WriteString(fmt.Sprintf("type localT struct{ N int }\n\nfunc (%s localT) Rest() int {\n\treturn %s.N\n}\n", pkg, pkg))
 	}
 
 	// --- expectations ---
@@ -245,11 +275,15 @@ func c11Build(cs *c11Case) (patch, file string, ex c11Expect) {
 	for _, b := range cs.Bystanders {
 		ex.MustHave = append(ex.MustHave, b)
 	}
-	stillUsed := cs.Remaining != "none"
+	stillUsed := cs.Remaining != "none" && !strings.HasPrefix(cs.Remaining, "shadowed-")
 	switch cs.Kind {
 	case "replace":
 		ex.MustHave = append(ex.MustHave, c11Import{Path: c11New})
-		if stillUsed {
+		if newPkg == pkg {
+			// the added import supplies the same package name (a version bump
+			// of an unnamed import): whatever still says pkg.X refers to it
+			ex.MustNotHave = append(ex.MustNotHave, subject)
+		} else if stillUsed {
 			ex.MustHave = append(ex.MustHave, subject)
 		} else {
 			ex.MustNotHave = append(ex.MustNotHave, subject)
@@ -373,8 +407,11 @@ func evalC11(cs *c11Case) (sig, msg string, ex c11Expect) {
 		switch {
 		case count[m.key()] == 0:
 			class := "import-missing"
-			if m.Path == c11Old || m.Path == c11Second {
+			if op, _, _, _ := c11Paths(cs.PathStyle); m.Path == op || m.Path == c11Second {
 				class = "used-import-deleted"
+			}
+			if cs.PathStyle != "" {
+				class += ":versioned-path"
 			}
 			return class + ":" + cs.Kind + ":" + cs.Remaining, fmt.Sprintf("import %q must be present after the change but is not\n%s", m.key(), describe()), ex
 		case count[m.key()] > 1:
@@ -383,7 +420,7 @@ func evalC11(cs *c11Case) (sig, msg string, ex c11Expect) {
 	}
 	for _, m := range ex.MustNotHave {
 		if count[m.key()] > 0 {
-			return "unused-import-kept:" + cs.Kind, fmt.Sprintf("import %q must be gone (nothing refers to it any more) but is still there\n%s", m.key(), describe()), ex
+			return "unused-import-kept:" + cs.Kind + ":" + cs.Remaining + map[bool]string{true: ":versioned-path"}[cs.PathStyle != ""], fmt.Sprintf("import %q must be gone (nothing refers to it any more) but is still there\n%s", m.key(), describe()), ex
 		}
 	}
 	// nothing unmentioned may be added
@@ -397,7 +434,7 @@ func evalC11(cs *c11Case) (sig, msg string, ex c11Expect) {
 
 var (
 	c11Kinds     = []string{"replace", "replace", "rename-path-keep-name", "delete", "delete", "add", "match"}
-	c11Remaining = []string{"none", "none", "plain", "nested-selector", "call-selector", "index-selector", "in-func-lit", "type-position"}
+	c11Remaining = []string{"none", "none", "plain", "nested-selector", "call-selector", "index-selector", "in-func-lit", "type-position", "shadowed-param", "shadowed-var", "shadowed-receiver"}
 	c11Layouts   = []string{"group", "singles", "two-blocks", "commented"}
 	c11ByPaths   = []string{"fmt", "os", "example.com/by/aa", "example.com/by/bb", "example.com/lib", "example.com/lib/oldp/sub", "example.com/lib/oldpx", "strings", "example.com/by/cc"}
 	c11ByNames   = []string{"", "", "", "nm", "_", ".", "zz"}
@@ -414,6 +451,12 @@ func c11Draw(rt *rapid.T) *c11Case {
 		Remaining:  rapid.SampledFrom(c11Remaining).Draw(rt, "remaining"),
 		Sites:      rapid.IntRange(0, 3).Draw(rt, "sites"),
 		SecondUsed: rapid.Bool().Draw(rt, "secondUsed"),
+		PathStyle:  rapid.SampledFrom([]string{"", "", "", "gopkg", "slashv"}).Draw(rt, "pathStyle"),
+	}
+	if cs.PathStyle != "" && cs.NameForm == "meta" {
+		// a metavariable name that matches an unnamed import is spelled like the
+		// metavariable in the code; keep versioned paths to the plain forms
+		cs.NameForm = "unnamed"
 	}
 	if cs.Kind == "rename-path-keep-name" && cs.NameForm == "unnamed" {
 		// an unnamed import of another path changes the package name: that
@@ -430,7 +473,7 @@ func c11Draw(rt *rapid.T) *c11Case {
 		}
 	}
 	n := rapid.IntRange(0, 8).Draw(rt, "nBy")
-	usedNames := map[string]bool{c11PkgName(cs.FileName, c11Old, ""): true, "newp": true, "addp": true, "adq": true, "secp": true, "oldp": true}
+	usedNames := map[string]bool{c11PkgName(cs.FileName, c11Old, ""): true, "newp": true, "addp": true, "adq": true, "secp": true, "oldp": true, "yaml": true, "codec": true, "custom": true}
 	seen := map[string]bool{}
 	dots := 0
 	for i := 0; i < n; i++ {
@@ -490,7 +533,7 @@ func TestC11(t *testing.T) {
 			forms[f] = true
 		}
 		nontriv := ex.Applies && len(cs.Bystanders) >= 2 && len(forms) >= 2 && cs.Kind != "match"
-		c.Case(evid.Hash(fmt.Sprint(*cs)), nontriv, "kind:"+cs.Kind, "name-form:"+cs.NameForm, "remaining:"+cs.Remaining, "layout:"+cs.Layout, "second:"+cs.Second, fmt.Sprintf("bystanders:%d", len(cs.Bystanders)), fmt.Sprintf("applies:%v", ex.Applies))
+		c.Case(evid.Hash(fmt.Sprint(*cs)), nontriv, "path-style:"+cs.PathStyle, "kind:"+cs.Kind, "name-form:"+cs.NameForm, "remaining:"+cs.Remaining, "layout:"+cs.Layout, "second:"+cs.Second, fmt.Sprintf("bystanders:%d", len(cs.Bystanders)), fmt.Sprintf("applies:%v", ex.Applies))
 		if nontriv && c.WantSample() {
 			p, f, _ := c11Build(cs)
 			c.Sample(map[string]any{"case": cs, "patch": p, "file": f})
